@@ -1130,7 +1130,7 @@ func VerifC13Gen(r *verifh.Rng, nsecQuick, nsecThorough int, bigEvery int) []ver
 				ops = append(ops, "closech")
 			}
 		}
-		if !big && i%verifh.Scale(40, 250) == 7 {
+		if !big && i%verifh.Scale(60, 400) == 7 {
 			// a failed Get costs about a second of real time (load's cool-down): a few per run
 			snap := snapshot(cur)
 			ops = append(ops, strings.TrimSpace("reloadg 1 "+strings.Join(snap, " ")))
